@@ -59,6 +59,7 @@ fn go<T: Elem + Clone>(ops: &Rows, mon: &mut Mon) -> Rows {
     let _ = take_drops();
     for (k, op) in ops.iter().enumerate() {
         let mut row: Vec<i64>;
+        let mut clone_from_extra: Vec<i64> = vec![];
         let before = oracle.clone();
         let (cap0, res0) = (v.capacity(), RESERVES.load(SeqCst));
         match op[0] {
@@ -99,6 +100,20 @@ fn go<T: Elem + Clone>(ops: &Rows, mon: &mut Mon) -> Rows {
                 v.reserve(op[1] as usize);
                 if v.capacity() - v.len() < op[1] as usize { mon.fail(format!("op{} reserve did not make room", k)); }
                 row = vec![4];
+            }
+            5 if op.get(1) == Some(&1) && !before.iter().any(|x| T::clone_panics(*x)) => {
+                // Clone::clone_from onto a destination that already holds n elements of its own: the destination becomes a copy of the source (same
+                // length, same contents), its old elements are destroyed, the source is untouched.  Then the copy takes the place of `v` as in a plain clone.
+                let n = op.get(2).copied().unwrap_or(0).rem_euclid(12) as usize;
+                let mut d: CVec<T> = CVec::from((0..n).map(|i| T::mk(900 + i as i64)).collect::<Vec<T>>());
+                let _ = take_drops();
+                d.clone_from(&v);
+                if contents(&d) != before || d.len() != before.len() { mon.fail(format!("op{} clone_from onto a vector of {} elements: the destination holds {:?}, the source {:?}", k, n, contents(&d), before)); }
+                if contents(&v) != before { mon.fail(format!("op{} clone_from modified its source", k)); }
+                let old = std::mem::replace(&mut v, foreignize(d));
+                checked_drop(old, mon, k);
+                clone_from_extra = (0..n).map(|i| T::norm(900 + i as i64)).collect();
+                row = vec![5];
             }
             5 => {
                 // Clone may panic half-way (element type PC): the source stays as it was and the clones made so far are destroyed, nothing else
@@ -152,10 +167,14 @@ fn go<T: Elem + Clone>(ops: &Rows, mon: &mut Mon) -> Rows {
             6 => if (op[1] as usize) < before.len() { vec![before[op[1] as usize]] } else { vec![T::norm(op[2])] },
             _ => vec![],
         };
+        want.extend(clone_from_extra.iter().copied());      // the destination's own elements of a clone_from
         let mut got = ran.clone();
         want.sort(); got.sort();
         if got != want { mon.fail(format!("op{} destructors ran for {:?}, std::Vec runs them for {:?}", k, got, want)); }
-        out.push(ran);
+        // (the destination's own elements of a clone_from are checked above and not part of the row the model predicts)
+        let mut shown = ran.clone();
+        for x in &clone_from_extra { if let Some(p) = shown.iter().position(|y| y == x) { shown.remove(p); } }
+        out.push(shown);
     }
     checked_drop(v, mon, ops.len());
     out.push(vec![99]);
